@@ -146,6 +146,29 @@ fn make_pool(rng: &mut Rng, ctx: &mut Ctx) -> (Vec<Entry>, Vec<Retry>) {
             }
         }
     }
+    // (j) the longest frames that end inside a byte: 1059 with 390 biases over 58..=63 satellites (1016..1022 payload
+    // bytes, 1..7 padding bits), all biases at the extremes so that the last bytes are mostly ones / zeros
+    {
+        use rtcm_rs::msg::{GpsSigId, Msg1059CodeBias, Msg1059T};
+        let table = &crate::oracle::sig::SSR_GPS;
+        for nsat in 58..=63usize {
+            for variant in 0..2 {
+                let mut t = Msg1059T::default();
+                let mut left = 390usize;
+                for s in 0..nsat {
+                    // spread 390 entries: at least one per satellite, at most 12 (distinct signals)
+                    let remaining_sats = nsat - s;
+                    let k = ((left + remaining_sats - 1) / remaining_sats).min(12).max(1).min(left - (remaining_sats - 1));
+                    for j in 0..k {
+                        let bias = if variant == 0 { -0.01 } else { 81.91 };
+                        t.biases.push(Msg1059CodeBias { satellite_id: s as u8, signal_id: GpsSigId::new(table[j].1, table[j].2), bias_m: bias });
+                    }
+                    left -= k;
+                }
+                add(&mut pool, Message::Msg1059(t), "pool_near_maximal_1059", ctx);
+            }
+        }
+    }
     // (i) correct-and-retry triples
     let typed: Vec<usize> = (0..pool.len()).filter(|&i| pool[i].label == "pool_valid_typed" && pool[i].fresh.is_ok()).collect();
     for &a in typed.iter() {
@@ -430,6 +453,18 @@ pub fn run(p: &Params) -> Outcome {
             run_history(ctx, &pool, &[c, r], a);
         }
         ctx.max("length_ladder_entries", ladder.len() as f64);
+        // the near-maximal frames after every capacity list, on every worker (few, and the only place where the
+        // last payload bytes of the buffer matter)
+        let near_max: Vec<usize> = (0..pool.len()).filter(|&i| pool[i].label == "pool_near_maximal_1059").collect();
+        for &t in near_max.iter() {
+            for &l in ladder.iter().filter(|&&l| pool[l].label == "pool_list_at_capacity") {
+                ctx.count("near_maximal_target_after_capacity_list");
+                run_history(ctx, &pool, &[l], t);
+            }
+            for &l2 in near_max.iter() {
+                run_history(ctx, &pool, &[l2], t);
+            }
+        }
         for target in (0..pool.len()).filter(|t| t % _nw == w) {
             if ctx.saturated() {
                 break;
@@ -478,7 +513,7 @@ pub fn run(p: &Params) -> Outcome {
     });
     total.max("calls_on_the_longest_lived_builder", 0.0);
     total.max("length_ladder_entries", 0.0);
-    for k in ["correct_and_retry_histories", "pool_list_at_capacity", "ladder_histories", "failure_then_target_histories", "pool_late_failing_biased_field", "pool_decoded_from_all_ones_max_payload", "histories_where_stale_bits_would_be_visible", "histories_with_failed_predecessor", "pool_entries_that_fail_to_build"] {
+    for k in ["near_maximal_target_after_capacity_list", "correct_and_retry_histories", "pool_list_at_capacity", "ladder_histories", "failure_then_target_histories", "pool_late_failing_biased_field", "pool_decoded_from_all_ones_max_payload", "histories_where_stale_bits_would_be_visible", "histories_with_failed_predecessor", "pool_entries_that_fail_to_build"] {
         if total.get(k) == 0 {
             total.inconclusive(format!("{} never observed", k));
         }
